@@ -1,12 +1,16 @@
 use crate::core::driver::Prop;
 
 pub mod c01;
+pub mod c02;
+pub mod c04;
+pub mod c17;
+pub mod execs;
 pub mod c09;
 pub mod c10;
 pub mod c11;
 
 pub fn all() -> Vec<Box<dyn Prop>> {
-    vec![Box::new(c01::C01), Box::new(c09::C09), Box::new(c10::C10), Box::new(c11::C11)]
+    vec![Box::new(c01::C01), Box::new(c02::C02), Box::new(c04::C04), Box::new(c17::C17), Box::new(c09::C09), Box::new(c10::C10), Box::new(c11::C11)]
 }
 
 /// Developer utilities (`verif dbg <what> ...`).
@@ -32,6 +36,14 @@ pub fn debug_cmd(args: &[String]) {
             }
             rec(&db, root, 0);
             println!("{}", diags.format(&db));
+        }
+        Some("rare") => {
+            let db = cairo_lang_parser::utils::SimpleParserDatabase::default();
+            for (i, item) in crate::gens::rare::RARE_ITEMS.iter().enumerate() {
+                if let Err(d) = crate::oracle::fmt::lex(&db, item) {
+                    println!("--- item {i}: {}\n{}", item.trim(), d.lines().take(6).collect::<Vec<_>>().join("\n"));
+                }
+            }
         }
         Some("fmt") => {
             let v: serde_json::Value = serde_json::from_str(&std::fs::read_to_string(&args[1]).unwrap()).unwrap();
